@@ -246,7 +246,6 @@ static size_t compare_tree(Ctx& c, const std::vector<Payload>& PS, uint32_t srcR
 		if (it != s2d.end()) {
 			// the source's pointer stays inside the cloned subtree (e.g. controller -> its target)
 			if (rb.value == it->second) continue;
-			if (same_model && rb.value == ra.value) { c.st.add("pointers_into_subtree_still_on_original_same_model"); continue; }
 			c.viol("clone:ptr-not-rebound:" + holder, vf::strf("%s (block %u): pointer #%zu reaches block %u of the cloned subtree in the source (a %s) but block %u instead of the clone's block %u in the destination",
 															   holder.c_str(), p.di, p.k, ra.value, PS[ra.value].type.c_str(), rb.value, it->second));
 			continue;
@@ -574,8 +573,7 @@ int main(int argc, char** argv) {
 	top.set_info("sample_files_distinct", (long long) samples.size());
 	top.note("intentional CloneShape behaviour is not flagged: normals/tangents stripped for SK/SSE model-space shaders (those snapshot fields and the payloads of geometry-holding blocks are "
 			 "excluded for such shapes), bones re-created / re-parented by name (bone pointers compared as names), node children lists growing when cloning inside one model");
-	top.note("a pointer of a cloned block that, in the source, targets a block of the cloned subtree is accepted inside one model when it still reaches the original block (counter "
-			 "pointers_into_subtree_still_on_original_same_model); across models it must reach the corresponding clone");
+	top.note("a pointer of a cloned block that, in the source, targets a block of the cloned subtree must reach the corresponding block of the clone, inside one model as well as across models");
 	top.note("reference snapshots after save + reload come from a twin of the source driven through the same save (raw / default); the clone may match any source shape of that name");
 	vf::finish(top);
 	return 0;
